@@ -354,9 +354,11 @@ def _explore(st, cfg, stack=None, split=None, max_execs=None):
         key2, _ = st.judge(ex)
         replays += 1
         if key2 != key or list(ex.trace) != list(trace):
+            diffs = [(a, b) for a, b in zip(ex.trace, trace) if a != b][:3]
             raise core.HarnessError(
-                "non-deterministic replay in %s: %r vs %r"
-                % (cfg["name"], key, key2))
+                "non-deterministic replay in %s: %r vs %r; %d/%d steps, first "
+                "differences %r" % (cfg["name"], key, key2, len(ex.trace),
+                                    len(trace), diffs))
     return exp, vios, replays
 
 
